@@ -102,13 +102,17 @@ def _make_matrix(r, kind, shape, d, scale):
     return A * scale
 
 
-def _cast(A, backend, prec, real=False):
+def _cast(A, backend, prec, real=False, layout='C'):
     import torch
     if real:
         A = np.asarray(A).real.astype(np.float32 if prec == 32 else np.float64)
     else:
         A = np.asarray(A).astype(np.complex64 if prec == 32 else np.complex128)
-    return torch.tensor(A) if backend == 'torch' else A
+    if backend == 'torch':
+        if layout in ('F', 'strided') and A.ndim >= 1 and A.size:
+            return torch.from_numpy(ref.with_layout(A, layout))  # keeps the strides: a non-contiguous tensor with the same values
+        return torch.tensor(A)
+    return ref.with_layout(A, layout)
 
 
 def run_as(ctx, case):
@@ -120,7 +124,9 @@ def run_as(ctx, case):
     r = ref.rng(case['prng'])
     A = _make_matrix(r, kind, shape, d, scale)
     tol = (1e-10 if prec == 64 else 2e-4)
-    Ain = _cast(A, backend, prec, real=(kind == 'real' and case['prng'] % 2 == 0))
+    layout = ref.LAYOUTS[(case['prng'] // 7) % len(ref.LAYOUTS)]
+    ctx.label('layout=' + layout)
+    Ain = _cast(A, backend, prec, real=(kind == 'real' and case['prng'] % 2 == 0), layout=layout)
     A = np.asarray(Ain.numpy() if backend == 'torch' else Ain).astype(np.complex128)  # what the library actually received
     sc = max(1.0, float(np.abs(A).max()))
     B = ref.gellmann_basis(d)
@@ -136,7 +142,7 @@ def run_as(ctx, case):
     w = ref.rand_complex(r, *(shape + (d * d,))) * scale
     if kind in ('hermitian', 'dm'):
         w = w.real + 0j
-    win = _cast(w, backend, prec, real=(kind in ('hermitian', 'dm')))
+    win = _cast(w, backend, prec, real=(kind in ('hermitian', 'dm')), layout=layout)
     w = np.asarray(win.numpy() if backend == 'torch' else win).astype(np.complex128)
     sw = max(1.0, float(np.abs(w).max()))
     Mw = gm.gellmann_basis_to_matrix(win)
@@ -165,7 +171,9 @@ def run_dm(ctx, case):
     rho = rho / np.trace(rho, axis1=-2, axis2=-1)[..., None, None]
     B = ref.gellmann_basis(d)
     b_ref = (np.einsum('aij,...ji->...a', B, rho) / 2).real
-    rin = torch.tensor(rho) if backend == 'torch' else rho
+    layout = ref.LAYOUTS[(case['prng'] // 7) % len(ref.LAYOUTS)]
+    ctx.label('layout=' + layout)
+    rin = _cast(rho, backend, 64, layout=layout)
     b = gm.dm_to_gellmann_basis(rin)
     ctx.require(tuple(b.shape) == shape + (d * d - 1,), 'Bloch vector shape', f'{tuple(b.shape)}')
     ctx.close(b, b_ref[..., :-1], 1e-10, 'Bloch vector = Tr(G_i rho)/2')
@@ -178,7 +186,8 @@ def run_dm(ctx, case):
     rho2 = gm.gellmann_basis_to_dm(b)
     ctx.require(tuple(rho2.shape) == shape + (d, d), 'dm shape')
     ctx.close(rho2, rho, 1e-10, 'Bloch vector round trip')
-    nrm = gm.dm_to_gellmann_norm(rho)
+    ctx.close(rin, rho, 0, 'Bloch-vector routines do not modify the state they are given')
+    nrm = gm.dm_to_gellmann_norm(ref.with_layout(rho, layout))
     ctx.close(nrm, np.linalg.norm(b_ref[..., :-1], axis=-1), 1e-10, 'Gell-Mann norm = |Bloch vector|')
     # unnormalised Hermitian input: the norm ignores the trace part
     if len(shape) == 0:
